@@ -40,7 +40,15 @@ var ghost struct {
 	trTold [65536]int
 	told   [65536]int
 
-	ioPC uintptr // program counter returned by the latest getpc call (C14)
+	ioPC uintptr // program counter captured by the latest runtime.Callers call (C14)
+
+	// decoding of a program counter (C14): the pc handed to the latest runtime.CallersFrames call, the
+	// iterator it returned, and the function / file / line the latest Frames.Next reported
+	cfPC   uintptr
+	cfObj  int
+	cfFn   int
+	cfFile int
+	cfLine int
 
 	warns int // number of diagnostic Warn calls issued by printOut after a failed destination (C13)
 }
@@ -132,8 +140,9 @@ func specInterrupts() bool {
 //@   props C14
 //@   requires [C14.skip] skip == fd + 1
 //@   requires [C14.extra-range] 0 <= extra && extra <= 1048576 && 0 <= skip && skip <= 1048576
-//@   posteffect ghost.ioPC = pc
-//@   at call runtime.Callers assert [C14.frame] callee.skip == fd + 2 + extra
+//@   assigns ghost.ioPC
+//@   ensures [C14.pc] pc == ghost.ioPC
+//@   at call runtime.Callers assert [C14.frame] callee.skip == fd + 2 + extra && len(callee.pc) >= 1
 
 //@ func convertLogSlogRecordAttrs
 //@   trusted
@@ -144,12 +153,66 @@ func specInterrupts() bool {
 //@   requires !isnil(s.Logger)
 //@   fd 2
 //@   at call runtime.Callers assert [C14.frame] implies(0 <= ei && ei <= 1048576, callee.skip == fd + 2 + ei)
+//@   at call (LogSlogAware).WriteThru assert [C14.pc] callee.pc == ghost.ioPC
 
 //@ func (*handlerWriter).Write
 //@   props C14 C15
 //@   auto
 //@   requires !isnil(s.l) && 0 <= s.extraFrames && s.extraFrames <= 1048576
 //@   fd 2
+//@   at call (LogLoggerAware).WriteInternal assert [C14.pc] implies(s.capturePC, callee.pc == ghost.ioPC)
+
+// the captured pc travels unchanged to the place where it is decoded:
+// WriteThru / WriteInternal / logContext -> print -> PrintCtx.set -> PrintCtx.source -> Source.Extract
+
+//@ func (*Entry).WriteThru
+//@   props C14 C15
+//@   requires s != nil && defaultWriter != nil && isnil(s.handlerOpt) && ghost.trN >= 0 && specFmtInv(s) && 0 <= s.extraFrames && s.extraFrames <= 1048576
+//@   requires [INV-dw] forall(k, 0, len(specDest(s, lvl)), !isnil(specDest(s, lvl)[k]) && !typeis(specDest(s, lvl)[k], LWs) && implies(typeis(specDest(s, lvl)[k], *logwr), dyn(specDest(s, lvl)[k], *logwr) != nil && !typeis(dyn(specDest(s, lvl)[k], *logwr).Writer, *logwr) && !typeis(dyn(specDest(s, lvl)[k], *logwr).Writer, LWs)))
+//@   requires [INV-dw.warn] forall(k, 0, len(specDest(s, WarnLevel)), !isnil(specDest(s, WarnLevel)[k]) && !typeis(specDest(s, WarnLevel)[k], LWs) && implies(typeis(specDest(s, WarnLevel)[k], *logwr), dyn(specDest(s, WarnLevel)[k], *logwr) != nil && !typeis(dyn(specDest(s, WarnLevel)[k], *logwr).Writer, *logwr) && !typeis(dyn(specDest(s, WarnLevel)[k], *logwr).Writer, LWs)))
+//@   assigns everything
+//@   keeps PrintCtx.off, PrintCtx.lvl
+//@   at call (*Entry).print assert [C14.C15.thru] callee.s == s && callee.stackFrame == stackFrame && callee.lvl == lvl && callee.timestamp == timestamp && callee.msg == msg && callee.kvps == attrs
+
+//@ func (*Entry).WriteInternal
+//@   props C14 C15
+//@   requires s != nil && defaultWriter != nil && isnil(s.handlerOpt) && ghost.trN >= 0 && specFmtInv(s) && 0 <= s.extraFrames && s.extraFrames <= 1048576
+//@   requires [INV-dw] forall(k, 0, len(specDest(s, lvl)), !isnil(specDest(s, lvl)[k]) && !typeis(specDest(s, lvl)[k], LWs) && implies(typeis(specDest(s, lvl)[k], *logwr), dyn(specDest(s, lvl)[k], *logwr) != nil && !typeis(dyn(specDest(s, lvl)[k], *logwr).Writer, *logwr) && !typeis(dyn(specDest(s, lvl)[k], *logwr).Writer, LWs)))
+//@   requires [INV-dw.warn] forall(k, 0, len(specDest(s, WarnLevel)), !isnil(specDest(s, WarnLevel)[k]) && !typeis(specDest(s, WarnLevel)[k], LWs) && implies(typeis(specDest(s, WarnLevel)[k], *logwr), dyn(specDest(s, WarnLevel)[k], *logwr) != nil && !typeis(dyn(specDest(s, WarnLevel)[k], *logwr).Writer, *logwr) && !typeis(dyn(specDest(s, WarnLevel)[k], *logwr).Writer, LWs)))
+//@   assigns everything
+//@   keeps PrintCtx.off, PrintCtx.lvl
+//@   at call (*Entry).writeInternal assert [C14.C15.thru] callee.s == s && callee.stackFrame == stackFrame && callee.lvl == lvl && callee.buf == buf
+
+//@ func (*Entry).writeInternal
+//@   props C14 C15
+//@   requires s != nil && defaultWriter != nil && isnil(s.handlerOpt) && ghost.trN >= 0 && specFmtInv(s) && 0 <= s.extraFrames && s.extraFrames <= 1048576
+//@   requires [INV-dw] forall(k, 0, len(specDest(s, lvl)), !isnil(specDest(s, lvl)[k]) && !typeis(specDest(s, lvl)[k], LWs) && implies(typeis(specDest(s, lvl)[k], *logwr), dyn(specDest(s, lvl)[k], *logwr) != nil && !typeis(dyn(specDest(s, lvl)[k], *logwr).Writer, *logwr) && !typeis(dyn(specDest(s, lvl)[k], *logwr).Writer, LWs)))
+//@   requires [INV-dw.warn] forall(k, 0, len(specDest(s, WarnLevel)), !isnil(specDest(s, WarnLevel)[k]) && !typeis(specDest(s, WarnLevel)[k], LWs) && implies(typeis(specDest(s, WarnLevel)[k], *logwr), dyn(specDest(s, WarnLevel)[k], *logwr) != nil && !typeis(dyn(specDest(s, WarnLevel)[k], *logwr).Writer, *logwr) && !typeis(dyn(specDest(s, WarnLevel)[k], *logwr).Writer, LWs)))
+//@   assigns everything
+//@   keeps PrintCtx.off, PrintCtx.lvl
+//@   at call (*Entry).print assert [C14.thru] callee.s == s && callee.stackFrame == stackFrame && callee.lvl == lvl
+
+//@ func checkpath
+//@   props C02 C14
+//@   auto
+//@   keeps ghost.cfPC, ghost.cfObj, ghost.cfFn, ghost.cfFile, ghost.cfLine, Source.Function, Source.File, Source.Line, PrintCtx.cachedSource, PrintCtx.off, PrintCtx.lvl, PrintCtx.msg, PrintCtx.kvps, PrintCtx.now, PrintCtx.stackFrame, PrintCtx.jsonMode, PrintCtx.noColor, PrintCtx.layout, PrintCtx.utcTime, PrintCtx.noQuoted, PrintCtx.dedupeAttrs
+
+//@ func (*PrintCtx).source
+//@   props C14
+//@   inline
+//@   requires s != nil
+//@   assigns s.cachedSource.Function, s.cachedSource.File, s.cachedSource.Line, ghost.cfPC, ghost.cfObj, ghost.cfFn, ghost.cfFile, ghost.cfLine
+//@   at call runtime.CallersFrames assert [C14.decode] len(callee.callers) == 1 && callee.callers[0] == s.stackFrame
+
+//@ func (*Source).Extract
+//@   props C14
+//@   inline
+//@   requires s != nil
+//@   assigns s.Function, s.File, s.Line, ghost.cfPC, ghost.cfObj, ghost.cfFn, ghost.cfFile, ghost.cfLine
+//@   at call runtime.CallersFrames assert [C14.decode] len(callee.callers) == 1 && callee.callers[0] == pc
+//@   at call (*runtime.Frames).Next assert [C14.decode-it] ident(callee.ci) == ghost.cfObj
+//@   at call checkpath assert [C14.file] contentid(callee.file) == ghost.cfFile
+//@   ensures [C14.fields] contentid(s.Function) == ghost.cfFn && s.Line == ghost.cfLine
 
 //@ func (*Entry).collectArgs
 //@   props C02 C07
@@ -186,7 +249,7 @@ func specInterrupts() bool {
 //@   at panic assert [C12.value] typeis(value, string) && dyn(value, string) == msg
 //@   at exit assert [C12.order] ghost.records >= old(ghost.records) + 1
 //@   at exit assert [C12.code] value == -3
-//@   at call (*Entry).print assert [C02.once] callee.s == s && callee.lvl == lvl && callee.msg == msg && callee.stackFrame == stackFrame
+//@   at call (*Entry).print assert [C02.C14.once] callee.s == s && callee.lvl == lvl && callee.msg == msg && callee.stackFrame == stackFrame
 
 //@ func (*Entry).Verbose
 //@   props C01
@@ -2120,13 +2183,13 @@ func specTellable(m LogWriter) bool {
 //@   ensures [C13.quiet] implies(ghost.warns == old(ghost.warns), ghost.trN == old(ghost.trN) + old(len(specDest(s, lvl))))
 //@   ensures [C12.flags] flags == old(flags) && inTesting == old(inTesting)
 //@   ensures [C01.emits] ghost.emits >= old(ghost.emits)
-//@   at call (*Entry).printImpl assert [C02.once] callee.s == s && callee.pc.lvl == lvl && callee.pc.msg == msg && callee.pc.now == timestamp && callee.pc.kvps == kvps && callee.pc.stackFrame == stackFrame
+//@   at call (*Entry).printImpl assert [C02.C14.once] callee.s == s && callee.pc.lvl == lvl && callee.pc.msg == msg && callee.pc.now == timestamp && callee.pc.kvps == kvps && callee.pc.stackFrame == stackFrame
 
 //@ func (*PrintCtx).set
 //@   props C02 C09 C11 C16
 //@   requires s != nil && e != nil && specFmtInv(e)
 //@   assigns s.buf, s.jsonMode, s.noColor, s.layout, s.utcTime, s.valueStringer, s.lvl, s.kvps, s.now, s.stackFrame, s.msg
-//@   ensures [C09.set] s.lvl == lvl && s.now == timestamp && s.stackFrame == stackFrame && s.msg == msg && s.kvps == kvps
+//@   ensures [C09.C14.set] s.lvl == lvl && s.now == timestamp && s.stackFrame == stackFrame && s.msg == msg && s.kvps == kvps
 //@   ensures [C11.derive] s.jsonMode == (specFormat(e) == fmtJSON) && s.noColor == (specFormat(e) != fmtColor)
 //@   ensures [C16.copy] s.layout == e.timeLayout && s.utcTime == e.modeUTC
 //@   ensures [C09.buf] len(s.buf) == 0 && samearray(s.buf, old(s.buf))
@@ -2203,6 +2266,7 @@ func specTellable(m LogWriter) bool {
 //@   props C02 C07
 //@   auto
 //@   requires !isnil(ctx)
+
 
 
 
@@ -2288,10 +2352,6 @@ func specTellable(m LogWriter) bool {
 //@   auto
 
 //@ func (*PrintCtx).appendError
-//@   props C02
-//@   auto
-
-//@ func checkpath
 //@   props C02
 //@   auto
 
